@@ -202,6 +202,55 @@ def pairwiseNestedCases (tagp : String) : Array Case := Id.run do
       k := k + 1
   pure out
 
+/-- two component types with two nested statements each; an operator is written between the
+    statements of one type (or a different one between those of each type). The documented rule:
+    nested statements of one type are conjoined, or joined by the operator written *between
+    them*. The expected operator per type is written down here, independently of `denote`
+    (whose `nestedOp` is level-wide like the code — the known finding this stream witnesses). -/
+def nestedOpPerTypeCases (tagp : String) : Array Case := Id.run do
+  let mut out : Array Case := #[]
+  let mut k := 0
+  let syms := Sym.nestables
+  for i in [0:syms.length] do
+    let x := syms.getD i default
+    let y := syms.getD ((i + 1 + i % 3) % syms.length) default
+    if x.name = y.name then continue
+    for (o1, o2) in [("OR", ""), ("", "XOR"), ("OR", "XOR"), ("XOR", "XOR"), ("", "")] do
+      let nm := fun (z : Sym) => String.ofList z.name
+      let mid := fun (o : String) => if o = "" then " " else " [" ++ o ++ "] "
+      let t := "A(officer) I(acts) " ++ nm x ++ "{A(a one) I(b one)}" ++ mid o1 ++ nm x ++ "{A(a two) I(b two)} "
+        ++ nm y ++ "{A(c one) I(d one)}" ++ mid o2 ++ nm y ++ "{A(c two) I(d two)}"
+      let exp := fun (o : String) => if o = "" then "AND" else o
+      let kf := if o1 = o2 then "" else "C02-operator-between-nested-statements-applies-to-every-type"
+      out := out.push { id := s!"{tagp}-nop{k}", op := "parse", args := Json.mkObj [("text", (t : Json))],
+                        tag := "operator-per-type", exp := Json.null,
+                        note := Json.mkObj [("kf", (kf : Json)), ("x", (nm x : Json)), ("y", (nm y : Json)),
+                                            ("ox", (exp o1 : Json)), ("oy", (exp o2 : Json))] }
+      k := k + 1
+  pure out
+
+def judgeNestedOps (c : Case) (o : ObsLine) : Verdict :=
+  let g := fun (k : String) => (c.note.getObjValAs? String k).toOption.getD ""
+  if o.st ≠ "ok" then
+    if o.st = "err" then .violation "well-formed statement rejected" s!"{o.code} (nested statements of two component types, operators {g "ox"} / {g "oy"})"
+    else .crash s!"{o.st}: {o.code}"
+  else
+    let fields : List Json := match (o.obs.getObjVal? "nodes").toOption with
+      | some (.arr #[n]) => (match (n.getObjVal? "s").toOption with | some (.arr a) => a.toList | _ => [])
+      | _ => []
+    let opOf := fun (z : String) =>
+      (fields.filterMap fun f => match f with
+        | .arr #[_, node] =>
+          if (node.getObjValAs? String "ct").toOption = some z && (node.getObjValAs? String "k").toOption = some "C"
+          then (node.getObjValAs? String "op").toOption else none
+        | _ => none).head?
+    match opOf (g "x"), opOf (g "y") with
+    | some a, some b =>
+      if a = g "ox" && b = g "oy" then .ok
+      else .violation "nested statements of one type are not joined by the operator written between them"
+        s!"{g "x"}: written {g "ox"}, parsed {a}; {g "y"}: written {g "oy"}, parsed {b}"
+    | _, _ => .violation "nested statements of one type are not joined by the operator written between them" "combination node missing"
+
 /-- every ordered pair of parenthesised component symbols -/
 def pairwiseSimpleCases (tagp : String) : Array Case := Id.run do
   let mut out : Array Case := #[]
